@@ -30,7 +30,7 @@ ASSUMPTIONS = ["Distribution.draw_mw stubbed (same targets handed to both runs)"
 OUTSIDE = ["histories longer than 1 (quick) / 2 (thorough) operations between the two generations (each history also contains run A itself)", "System.generator (cannot be handed a generator)", "force-field typing inside histories (covered by C20)"]
 REQUIRED_LABELS = ["same molecule after any history", "parsed object unchanged by the operation", "global generator untouched"]
 
-SK = ["homo-prefix-suffix", "random-copolymer-weighted", "endgroup-initiated", "block-with-connector", "left-terminal-list", "star-three-descriptors"]
+SK = ["homo-prefix-suffix", "left-terminal-list", "endgroup-initiated", "block-with-connector", "random-copolymer-weighted", "star-three-descriptors"]
 OPS = ["generate", "str", "print-without-extensions", "reaction-graph", "atom-graph", "mirror", "elements", "residues", "generable", "parse-again", "global-rng-draw"]
 
 
@@ -131,6 +131,8 @@ def run_case(case, g, tier, res):
         finally:
             gen.OBS[0] = None
         smiA, wA = ra.smiles, ra.weight
+        c.prove(all(r is rng for (_, _, r) in obs.draws) and len(obs.draws) == len(set(id(d) for (d, _, _) in obs.draws)),
+                "every draw uses the supplied generator, once per block", detail("a target mass is drawn from another generator than the supplied one (or twice)"))
         c.prove(tree_eq(digest(g, A)[0], dA0[0]) and digest(g, A)[1:] == dA0[1:], "parsed object unchanged by the operation", detail("generate changed the parsed object"))
         c.prove(core_mod._GLOBAL_RNG.bit_generator.state == state0, "global generator untouched", detail("generate with a supplied generator consumed the global generator"))
         picks = [r.index for r in rng.calls]
@@ -182,6 +184,7 @@ def replay(rp, gb):
 
     obs = gen.Observer()
     gen.install_observers(gb, obs)
+    gen.OBS[0] = obs
     A = fresh()
     gen.DRAW_FN[0] = gen.scripted_draw(list(rp["targets"]))
     problems = []
@@ -193,8 +196,12 @@ def replay(rp, gb):
         return False, "stream ended"
     if str(A) != s0:
         problems.append("generate changed the parsed object")
+    rngA = None
+    if any(r is None or not isinstance(r, gendrive.ScriptedRng) for (_, _, r) in obs.draws) or len(obs.draws) != len(set(id(d) for (d, _, _) in obs.draws)):
+        problems.append("a target mass is drawn from another generator than the supplied one (or twice)")
     if gcore._GLOBAL_RNG.bit_generator.state != st0:
         problems.append("global generator consumed")
+    gen.OBS[0] = None
     B, T = fresh(), fresh()
     sB = (str(B), B.generate_string(False), B.generable)
     dB = _plain_digest(gb, B)
@@ -216,6 +223,8 @@ def replay(rp, gb):
         problems.append(f"second run raised {type(e).__name__}")
     if not same:
         problems.append("another molecule after the history")
+    if rp["what"].startswith("a target mass is drawn"):
+        return any(p.startswith("a target mass is drawn") for p in problems), f"{problems}"
     return bool(problems), f"{problems}"
 
 
